@@ -40,7 +40,7 @@ theorem sum_upd (f g : Oid → Int) (oid : Oid) (r : Int) (hg : ∀ x, g x = if 
 theorem HC.congr {s X : Sys} (h : HC s) (e : bq X.buf = bq s.buf) : HC X := by
   unfold bq at e
   simp only [Prod.mk.injEq] at e
-  obtain ⟨e1, e2, e3, e4⟩ := e
+  obtain ⟨e1, e2, e3, e4, _⟩ := e
   intro L hnd hL
   have : sumSz X.buf L = sumSz s.buf L := by
     unfold sumSz
@@ -52,7 +52,7 @@ theorem HC.congr {s X : Sys} (h : HC s) (e : bq X.buf = bq s.buf) : HC X := by
   exact h L hnd (by rw [← e4]; exact hL)
 
 theorem HC.deposit {s X : Sys} (h : HC s) {oid : Oid} {ob : Obs} (hd : Dep s X oid ob) (hr : 0 ≤ ob.rate) : HC X := by
-  obtain ⟨d1, d2, d3, d4⟩ := hd
+  obtain ⟨_, d1, d2, d3, d4⟩ := hd
   intro L hnd hL
   have := sum_upd s.buf.sizeOf X.buf.sizeOf oid ob.rate d4 L hnd
   unfold sumSz
@@ -238,7 +238,7 @@ theorem si_ingestStream {s : Sys} (hs : SInv s) (hb : BufI s) (h : SI s) {p : Pr
       = s.obs? o := by
     intro o; unfold obs?; rw [updProc_obs, hobs]
   have hsize : ∀ o, s.buf.sizeOf o ≤ (s.ingestStreamBlock p.wake p.pc oid tl).1.buf.sizeOf o := by
-    rcases hbq with ⟨e, _⟩ | ⟨ob, hob, _, _, _, _, hsz⟩
+    rcases hbq with ⟨e, _⟩ | ⟨ob, hob, _, _, _, _, _, hsz⟩
     · intro o
       have : (s.ingestStreamBlock p.wake p.pc oid tl).1.buf.size = s.buf.size := congrArg (·.2.2.1) e
       unfold Buffer.sizeOf; rw [this]; exact Int.le_refl _
@@ -289,7 +289,7 @@ theorem si_ingestStream {s : Sys} (hs : SInv s) (hb : BufI s) (h : SI s) {p : Pr
         have := hb.strUniq q hq p hp oid tlq tl hqk hk
         have : q = p := hpw.eq_of_pid hq hp this
         subst this; omega
-    rcases hbq with ⟨_, hraise⟩ | ⟨ob', hob', _, _, _, _, hsz⟩
+    rcases hbq with ⟨_, hraise⟩ | ⟨ob', hob', _, _, _, _, _, hsz⟩
     · obtain ⟨e, he⟩ := hraise ob hob hrun
       exact absurd he (hnr e)
     · rw [hob] at hob'; injection hob' with e
@@ -341,7 +341,7 @@ theorem allocTasksBlock_bufCases (s : Sys) (now : Time) (orc : Oracle) (pc : Nat
       exact Or.inl ((processCurrentSchedule_buf _ now oid _ _).trans ((atS3_buf _ out oid).trans h1))
 
 /-- the processes of `s` are still there after the block, and pids stay distinct -/
-theorem block_pre {s : Sys} (hpw : PW s) (heg : EG s) {p : Proc} (hp : p ∈ s.procs) (ha : p.alive = true)
+theorem block_pre_str {s : Sys} (hpw : PW s) (heg : EG s) {p : Proc} (hp : p ∈ s.procs) (ha : p.alive = true)
     (hmin : ∀ q ∈ s.procs, q.alive = true → p.wake ≤ q.wake) (orc : Oracle) :
     s.procs <+: (s.block p orc).1.procs ∧ PW (s.block p orc).1 := by
   have ofE : PresE s (s.block p orc).1 → s.procs <+: (s.block p orc).1.procs ∧ PW (s.block p orc).1 :=
@@ -449,7 +449,7 @@ theorem sh_step {s : Sys} (hs : SInv s) (hf : FInv s) (hb : BufI s) (h : SHInv s
   subst hpid
   have hcore := resume_core s p.pid orc p hp ha
   have hpw := hs.pw
-  obtain ⟨hprefix, hpwX⟩ := block_pre hpw hs.eg hpm ha hmin orc
+  obtain ⟨hprefix, hpwX⟩ := block_pre_str hpw hs.eg hpm ha hmin orc
   have htag := block_tag s hpw p orc
   have hntY : NoTier ((s.block p orc).1.updProc p.pid (fin (s.block p orc).2.1 (s.block p orc).2.2 p.wake)) := by
     intro q hq; exact hnt' q (by rw [hcore.procs]; exact hq)
